@@ -88,6 +88,14 @@ func (p *parser) peek() lexer.Token {
 	return p.tokens[p.pos]
 }
 
+// peekAt returns the token n positions after the current one.
+func (p *parser) peekAt(n int) lexer.Token {
+	if len(p.tokens) <= p.pos+n {
+		return lexer.Token{Type: lexer.EOF}
+	}
+	return p.tokens[p.pos+n]
+}
+
 func (p *parser) unread() {
 	if p.pos > 0 {
 		p.pos--
